@@ -739,6 +739,51 @@ def _expected_ok(self, inputs, avail, n):
 ArrayCase.native = _array_native
 
 
+def _array_standin(self):
+    """Bounded native check of the array entry point against the plain-python reference (run only when the symbolic
+    case was left undecided): element counts around 0..3, 255..257, 600, 1000; inputs complete, cut at every element
+    boundary near both ends, cut inside an element; start offsets 0 and 5."""
+    import random
+    import zlib
+
+    if self.op not in ("read_array_n", "read_array_eof", "read_0", "read_0_any"):
+        return None
+    rnd = random.Random(zlib.crc32(self.name.encode()))
+    n = sizeof(self.tname)
+    fails = []
+    evals = 0
+    for cnt in (0, 1, 2, 3, 254, 255, 256, 257, 600, 1000):
+        body = bytes(rnd.randrange(1, 256) for _ in range(cnt * n))  # non-zero bytes: no accidental terminator
+        if self.tname in PACKED_FLOAT or self.tname == "wchar":
+            body = bytes((b & 0x3F) | 0x01 for b in body)  # ordinary finite floats / BMP code units
+        if self.op in ("read_0", "read_0_any"):
+            variants = [body + bytes(n) + b"\x07" * 3, body + bytes(n), body, body + bytes(n - 1) if n > 1 else body]
+        else:
+            full = body + b"\x07" * 3
+            cuts = {len(full), cnt * n, cnt * n - 1, cnt * n - n, (cnt // 2) * n, 256 * n, 255 * n, n, 1, 0}
+            variants = [full[:c] for c in sorted(c for c in cuts if 0 <= c <= len(full))]
+            if self.op == "read_array_eof":
+                variants = [v[: len(v)] for v in variants] + [body, body + b"\x01"]
+        for v in variants:
+            for p in (0, 5):
+                inputs = {"D": (bytes(rnd.randrange(256) for _ in range(p)) + v).hex(), "p": p, "count": cnt, "_extended": True}
+                evals += 1
+                try:
+                    r = _array_native(self, inputs)
+                except Exception as e:  # noqa: BLE001
+                    r = {"reproduced": None, "observed": f"oracle crashed: {type(e).__name__}: {e}"}
+                if r and r.get("reproduced") and len(fails) < 3:
+                    d = dict(inputs)
+                    d.pop("_extended")
+                    if len(d["D"]) > 200:
+                        d["D"] = d["D"][:64] + f"...({len(d['D']) // 2} bytes)"
+                    fails.append({"id": f"count{cnt}-len{len(v)}-p{p}", "inputs": d, "observed": r.get("observed")})
+    return {"name": f"standin:{self.name}", "bound": _array_standin.__doc__.split(":", 1)[1].strip(), "evaluations": evals, "distinct": evals, "failures": fails}
+
+
+ArrayCase.standin = _array_standin
+
+
 def make_array(tname, endian, op):
     return ArrayCase(tname, endian, op)
 
